@@ -28,14 +28,15 @@ def pairedAux : Bool → List Z → Bool
 def Paired (zs : List Z) : Prop := pairedAux false zs = true
 
 /-- The look-ahead `zs[i+1]` leaves the list exactly when endpoint hits are not paired. -/
-theorem go_panic_iff (zs : List Z) (n : Int) (b : Bool) : go zs n b = .panic ↔ ¬ Paired zs := by
+theorem go_panic_iff (zs : List Z) (n : Int) (b : Bool) (st : Bool × Bool) :
+    go zs n b st = .panic ↔ ¬ Paired zs := by
   unfold Paired
-  fun_induction go zs n b <;> simp_all [pairedAux]
+  fun_induction go zs n b st <;> simp_all [pairedAux]
 
 /-- totality of `windings` on paired lists -/
 theorem windings_total (zs : List Z) (h : Paired zs) : windings zs ≠ .panic := by
   intro hp
-  exact (go_panic_iff zs 0 false).mp hp h
+  exact (go_panic_iff zs 0 false (false, false)).mp hp h
 
 /-- and the defect: a single endpoint hit (what an OPEN subpath yields when the query point is
 level with its first or last vertex) makes the real code index out of range -/
@@ -43,22 +44,44 @@ theorem windings_panics_on_unpaired_endpoint :
     windings [⟨false, false, true, false⟩] = .panic := by
   simp [windings, go]
 
-/-- a second defect, at the level of the model: a path that comes from above, runs along the ray on
-a horizontal edge and leaves downwards (hits: overlap end point + tangent end point, twice, both
-`into`) passes through the ray once, but `windings` counts nothing (both pairs contain an overlap).
-Replayed on the real code with `M0 0L4 0L4 -3L-2 -3L-2 3L0 3z` at (-1,0) and (-3,0). -/
-theorem windings_misses_horizontal_step :
+/-- A path that comes from above, runs along the ray on a horizontal edge and leaves downwards
+(hits: overlap end point + tangent end point, twice, both `into`) passes through the ray once and is
+counted once, downwards; if it leaves the way it came (a U shape) nothing is counted. (Before /repo
+commit "fix: windings counts a path that steps through the ray along a horizontal edge" both cases
+counted nothing: L-shaped polygons were misjudged.) -/
+theorem windings_horizontal_step :
     windings [⟨false, false, true, true⟩, ⟨false, true, true, false⟩,
-              ⟨false, false, true, true⟩, ⟨false, true, true, false⟩] = .ok 0 false := by
-  simp [windings, go]
+              ⟨false, false, true, true⟩, ⟨false, true, true, false⟩] = .ok (-1) false ∧
+    windings [⟨false, false, true, true⟩, ⟨false, true, true, false⟩,
+              ⟨false, false, true, true⟩, ⟨false, false, true, false⟩] = .ok 0 false := by
+  constructor <;> simp [windings, go]
+
+/-- general form: entering an overlapping section with direction `e` and leaving it with direction
+`l` (each end given as an overlap hit paired with a non-overlap end-point hit, in either order) adds
+the crossing iff `e = l`. -/
+theorem windings_overlap_section (z1 z2 z3 z4 : Z) (rest : List Z) (n : Int) (b : Bool) (st2 : Bool)
+    (h1 : z1.t0zero = false ∧ z1.endpoint = true) (h3 : z3.t0zero = false ∧ z3.endpoint = true)
+    (hs12 : z1.same ≠ z2.same) (hs34 : z3.same ≠ z4.same) :
+    go (z1 :: z2 :: z3 :: z4 :: rest) n b (false, st2) =
+      go rest (let e := if z1.same then z2.into else z1.into
+               let l := if z3.same then z4.into else z3.into
+               if l = e then (if l then n - 1 else n + 1) else n) b
+        (false, if z1.same then z2.into else z1.into) := by
+  have e1 : (z1.same || z2.same) = true := by cases h : z1.same <;> cases h' : z2.same <;> simp_all
+  have e3 : (z3.same || z4.same) = true := by cases h : z3.same <;> cases h' : z4.same <;> simp_all
+  have n12 : (z1.same != z2.same) = true := by cases h : z1.same <;> cases h' : z2.same <;> simp_all
+  have n34 : (z3.same != z4.same) = true := by cases h : z3.same <;> cases h' : z4.same <;> simp_all
+  simp only [go, h1.1, h1.2, h3.1, h3.2, e1, e3, n12, n34, Bool.false_eq_true, if_false, Bool.not_true,
+    Bool.not_false, if_true]
+  simp
 
 def crossingSum : List Z → Int
   | [] => 0
   | z :: rest => dir z + crossingSum rest
 
-theorem go_generic (zs : List Z) (n : Int) (b : Bool)
+theorem go_generic (zs : List Z) (n : Int) (b : Bool) (st : Bool × Bool)
     (h : ∀ z ∈ zs, z.t0zero = false ∧ z.endpoint = false ∧ z.same = false) :
-    go zs n b = .ok (n + crossingSum zs) b := by
+    go zs n b st = .ok (n + crossingSum zs) b := by
   induction zs generalizing n with
   | nil => simp [go, crossingSum]
   | cons z rest ih =>
@@ -76,23 +99,23 @@ number of crossings, +1 for each upward and −1 for each downward crossing, and
 theorem windings_generic (zs : List Z)
     (h : ∀ z ∈ zs, z.t0zero = false ∧ z.endpoint = false ∧ z.same = false) :
     windings zs = .ok (crossingSum zs) false := by
-  have := go_generic zs 0 false h
+  have := go_generic zs 0 false (false, false) h
   simpa [windings] using this
 
 /-- Vertex-pair rule: two consecutive end-point hits (the two segments meeting at a vertex on the
 ray) count once iff the path passes through the ray there (both go the same way), and not at all if
 it only touches it; overlapping (horizontal) hits are ignored. -/
-theorem windings_vertex_pair (z z2 : Z) (rest : List Z) (n : Int) (b : Bool)
-    (h0 : z.t0zero = false) (he : z.endpoint = true) :
-    go (z :: z2 :: rest) n b =
-      go rest (if (z.same || z2.same) = false ∧ z.into = z2.into then n + dir z else n) b := by
-  simp only [go, h0, he, Bool.false_eq_true, if_false, Bool.not_true]
+theorem windings_vertex_pair (z z2 : Z) (rest : List Z) (n : Int) (b : Bool) (st : Bool × Bool)
+    (h0 : z.t0zero = false) (he : z.endpoint = true) (hs : (z.same || z2.same) = false) :
+    go (z :: z2 :: rest) n b st =
+      go rest (if z.into = z2.into then n + dir z else n) b st := by
+  simp only [go, h0, he, hs, Bool.false_eq_true, if_false, Bool.not_true, Bool.not_false, if_true]
   congr 1
-  by_cases hs : (z.same || z2.same) = true <;> by_cases hi : z.into = z2.into <;> simp_all
+  by_cases hi : z.into = z2.into <;> simp_all
 
-theorem go_boundary_mono (zs : List Z) (n : Int) (b : Bool) (hb : b = true) :
-    ∀ m b', go zs n b = .ok m b' → b' = true := by
-  fun_induction go zs n b <;> simp_all
+theorem go_boundary_mono (zs : List Z) (n : Int) (b : Bool) (st : Bool × Bool) (hb : b = true) :
+    ∀ m b', go zs n b st = .ok m b' → b' = true := by
+  fun_induction go zs n b st <;> simp_all
 
 /-- A hit at the ray's start (the query point lies on the path) is reported as boundary. -/
 theorem windings_boundary_reported (z : Z) (rest : List Z) (h : z.t0zero = true) (m : Int) (b' : Bool)
@@ -100,7 +123,7 @@ theorem windings_boundary_reported (z : Z) (rest : List Z) (h : z.t0zero = true)
   simp only [windings] at hr
   rw [go.eq_def] at hr
   simp only [h, if_true] at hr
-  exact go_boundary_mono rest 0 true rfl m b' hr
+  exact go_boundary_mono rest 0 true (false, false) rfl m b' hr
 
 /-- Reverse negates the winding number of the specification around every point. -/
 theorem reverse_negates (p : IPt) (polys : List (List IPt)) :
